@@ -16,6 +16,7 @@ import Psa.Driver.EncIO
 import Psa.Driver.RegIO
 import Psa.Driver.EncJsonIO
 import Psa.Driver.JTokIO
+import Psa.Driver.PTagIO
 namespace Psa.Driver
 open Psa
 
@@ -91,6 +92,7 @@ def runLine (l : String) : String :=
       | "popj" => opPopJ args
       | "jskip" => opJSkip args
       | "jkeys" => opJKeys args
+      | "jtag" => opJTag args
       | "reg" => opReg args
       | "dispatch-cbor" => opDispatchCbor args
       | "dispatch-json" => opDispatchJson args
